@@ -28,7 +28,21 @@ struct Step {
     out: Option<String>,
     proc: Option<ProcSpec>,
     entry: Option<Entry>,
+    /// simulated time of the step (seconds): runs start their clock here, edits
+    /// stamp it on the files they rewrite
+    #[serde(default)]
+    at: i64,
+    /// edits: "now" | "preserved_old" (file restored from a backup, old mtime kept)
+    /// | "same_as_cache" (saved within the same second as the last run)
+    #[serde(default)]
+    mtime_mode: String,
+    #[serde(default)]
+    proj_style: Option<u8>,
 }
+
+/// start of the simulated timeline (after the real present, so that nothing the
+/// harness writes with a real timestamp looks newer than a simulated one)
+const T0: i64 = 1_800_000_000;
 
 #[derive(Clone, Debug, Serialize, Deserialize)]
 struct Case {
@@ -54,6 +68,7 @@ pub const CONFIG_CHANGES: &[&str] = &[
     "flag_mode",
     "file_mode_under_flag",
     "flag_visualize",
+    "project_path_spelling",
 ];
 pub const DELETABLE: &[&str] = &["types.ts", "commands.ts", "index.ts", "events.ts", ".typecache", "dependency-graph.txt"];
 pub const TAMPERS: &[&str] = &["truncate", "empty", "bitflip", "version", "wrong_shape"];
@@ -185,6 +200,10 @@ fn gen_config_change(r: &mut Rng, class: &str, cfg: &Cfg, setup: &Setup, model: 
                 return None;
             }
         }
+        "project_path_spelling" => {
+            // handled by the caller (it lives in the setup); nothing changes in Cfg
+            desc = "project path spelled differently".into();
+        }
         "output_path" => {
             let new = if setup.out.ends_with("generated") { "app/src/bindings" } else { "app/src/generated" };
             out = Some(new.to_string());
@@ -269,16 +288,20 @@ impl Check for C08 {
                 let step = match kind.as_str() {
                     "edit" => gen_edit(&mut sr, &class, &cur_model).map(|(m, d)| {
                         cur_model = m.clone();
-                        Step { kind: kind.clone(), label: class.clone(), desc: d, model: Some(m), cfg: None, out: None, proc: None, entry: None }
+                        Step { kind: kind.clone(), label: class.clone(), desc: d, model: Some(m), cfg: None, out: None, proc: None, entry: None, at: 0, mtime_mode: String::new(), proj_style: None }
                     }),
                     "config" => gen_config_change(&mut sr, &class, &cur_cfg, &cur_setup, &cur_model).map(|(c, o, d)| {
                         cur_cfg = c.clone();
                         if let Some(o) = &o {
                             cur_setup.out = o.clone();
                         }
-                        Step { kind: kind.clone(), label: class.clone(), desc: d, model: None, cfg: Some(c), out: o, proc: None, entry: None }
+                        if class == "project_path_spelling" {
+                            cur_setup.proj_style = (cur_setup.proj_style + 1 + sr.below(3) as u8) % 4;
+                            return Step { kind: kind.clone(), label: class.clone(), desc: d, model: None, cfg: Some(c), out: None, proc: None, entry: None, at: 0, mtime_mode: String::new(), proj_style: Some(cur_setup.proj_style) };
+                        }
+                        Step { kind: kind.clone(), label: class.clone(), desc: d, model: None, cfg: Some(c), out: o, proc: None, entry: None, at: 0, mtime_mode: String::new(), proj_style: None }
                     }),
-                    _ => Some(Step { kind: kind.clone(), label: class.clone(), desc: format!("{} {}", kind, class), model: None, cfg: None, out: None, proc: None, entry: None }),
+                    _ => Some(Step { kind: kind.clone(), label: class.clone(), desc: format!("{} {}", kind, class), model: None, cfg: None, out: None, proc: None, entry: None, at: 0, mtime_mode: String::new(), proj_style: None }),
                 };
                 if let Some(s) = step {
                     steps.push(s);
@@ -291,16 +314,36 @@ impl Check for C08 {
             // a run between changes, sometimes
             if !last && sr.chance(1, 2) {
                 let entry = if both_entries_possible(&setup) && sr.chance(1, 2) { Some(if sr.chance(1, 2) { Entry::Cli } else { Entry::Build }) } else { None };
-                steps.push(Step { kind: "run".into(), label: "run".into(), desc: "non-forced run".into(), model: None, cfg: None, out: None, proc: Some(gen_proc(&mut sr)), entry });
+                steps.push(Step { kind: "run".into(), label: "run".into(), desc: "non-forced run".into(), model: None, cfg: None, out: None, proc: Some(gen_proc(&mut sr)), entry, at: 0, mtime_mode: String::new(), proj_style: None });
             }
         }
         let entry = if both_entries_possible(&setup) && sr.chance(1, 3) { Some(if setup.entry == Entry::Cli { Entry::Build } else { Entry::Cli }) } else { None };
-        steps.push(Step { kind: "run".into(), label: "run".into(), desc: "non-forced run".into(), model: None, cfg: None, out: None, proc: Some(gen_proc(&mut sr)), entry });
+        steps.push(Step { kind: "run".into(), label: "run".into(), desc: "non-forced run".into(), model: None, cfg: None, out: None, proc: Some(gen_proc(&mut sr)), entry, at: 0, mtime_mode: String::new(), proj_style: None });
         // and once more: a second run must not un-notice anything
         if sr.chance(1, 4) {
-            steps.push(Step { kind: "run".into(), label: "run".into(), desc: "non-forced run".into(), model: None, cfg: None, out: None, proc: Some(gen_proc(&mut sr)), entry: None });
+            steps.push(Step { kind: "run".into(), label: "run".into(), desc: "non-forced run".into(), model: None, cfg: None, out: None, proc: Some(gen_proc(&mut sr)), entry: None, at: 0, mtime_mode: String::new(), proj_style: None });
         }
-        let p_init = gen_proc(&mut r.split("init"));
+        let mut p_init = gen_proc(&mut r.split("init"));
+        // one monotone simulated timeline for the whole history
+        let mut tr = r.split("timeline");
+        let mut t = T0;
+        p_init.clock.start_s = t;
+        p_init.clock.jumps.clear();
+        for st in steps.iter_mut() {
+            t += 1 + tr.below(120) as i64;
+            st.at = t;
+            if let Some(p) = &mut st.proc {
+                p.clock.start_s = t;
+                p.clock.jumps.clear();
+            }
+            if st.kind == "edit" {
+                st.mtime_mode = match tr.below(10) {
+                    0 => "preserved_old".into(),
+                    1 => "same_as_cache".into(),
+                    _ => "now".into(),
+                };
+            }
+        }
         serde_json::to_value(Case { model, cfg, setup, init_state, p_init, steps }).unwrap()
     }
 
@@ -317,6 +360,9 @@ impl Check for C08 {
         let mut cfg = c.cfg.clone();
         let mut model = c.model.clone();
         let w = scen::materialise(env, &model, &cfg, &setup);
+        // every file of the project is older than anything the history does
+        w.stamp_all(T0 - 1000);
+        let mut last_run_at: i64 = c.p_init.clock.start_s;
         // ---- initial generated state ----------------------------------------------------
         match c.init_state.as_str() {
             "current" => {
@@ -356,13 +402,22 @@ impl Check for C08 {
                 "edit" => {
                     if let Some(m) = &step.model {
                         model = m.clone();
-                        w.write_sources(&model);
+                        let stamp = match step.mtime_mode.as_str() {
+                            "preserved_old" => T0 - 500,
+                            "same_as_cache" => last_run_at,
+                            _ if step.at > 0 => step.at,
+                            _ => last_run_at + 60,
+                        };
+                        w.write_sources_at(&model, Some(stamp));
                     }
                     since_last_run.push(format!("edit:{}", step.label));
                 }
                 "config" => {
                     if let Some(o) = &step.out {
                         setup.out = o.clone();
+                    }
+                    if let Some(ps) = step.proj_style {
+                        setup.proj_style = ps;
                     }
                     if let Some(cc) = &step.cfg {
                         cfg = cc.clone();
@@ -412,6 +467,9 @@ impl Check for C08 {
                         Entry::Cli => Call::Cli(w.argv(&s, &cfg, false, false)),
                         Entry::Build => Call::Build,
                     };
+                    if step.at > 0 {
+                        last_run_at = step.at;
+                    }
                     let ro = env.run(&w, &cwd, p, call);
                     n_runs += 1;
                     co.count("processes", 1);
